@@ -39,7 +39,7 @@ type Case struct {
 	Prog     ProgSpec `json:"prog"`
 	Mode     uint     `json:"mode"`
 	CPULimit int      `json:"cpu_limit"` // capacity of go/ir's package-level build semaphore
-	Scheds []Sched  `json:"scheds"`
+	Scheds   []Sched  `json:"scheds"`
 }
 
 var driverNames = []string{"prog.Build", "one task per package", "two tasks per package", "prog.Build twice concurrently", "prog.Build with concurrent MethodValue callers", "prog.Build after per-package Build of a subset"}
@@ -428,10 +428,10 @@ func sharedReach(prog *ir.Program, p *ir.Package) []*ir.Function {
 }
 
 type runner struct {
-	ref   map[string][]string
-	viol  *batch.Violation
-	cnt   map[string]int
-	what  string
+	ref  map[string][]string
+	viol *batch.Violation
+	cnt  map[string]int
+	what string
 }
 
 func (r *runner) fail(class, f string, a ...any) {
